@@ -22,6 +22,13 @@
 //!  * map: the lane's final state restricted to a consumer's keys equals the fold of all its commands
 //!    (when nobody else clears).
 
+//!
+//! C17 at the level of the runtime (conversations with a finite `empty_timeout` only), see
+//! `check_inactivity`: the runtime never stops for inactivity while a served consumer listens or less
+//! than one timeout after work of one of its tasks (`downlink/stopped-while-consumer-attached/..`,
+//! `downlink/stopped-early/..`), and it has stopped by itself at the end of the final idle period
+//! (`downlink/idle-runtime-never-stopped/..`).
+
 use std::collections::{BTreeMap, HashMap};
 use std::sync::Mutex;
 
@@ -810,23 +817,52 @@ fn check_inactivity(cx: &Ctx<'_>, out: &mut dyn Sink) {
     if let Some(fi) = &obs.final_idle {
         if !fi.runtime_alive_before {
             out.count("c17/final-idle-periods/runtime-had-stopped-before");
-        } else if lane_fault || obs.runtime_panic.is_some() || !obs.stuck.is_empty() || fi.events_after_departure < 2 {
-            out.count("c17/final-idle-periods/not-judged");
+        } else if lane_fault || obs.runtime_panic.is_some() {
+            out.count("c17/final-idle-periods/not-judged/link-failed");
+        } else if !obs.stuck.is_empty() {
+            out.count("c17/final-idle-periods/not-judged/something-still-busy-at-the-quiescent-point");
+        } else if fi.events_after_departure < 2 {
+            // (the read task may not have been told that the last consumer left)
+            out.count("c17/final-idle-periods/not-judged/lane-sent-fewer-than-two-events");
         } else {
             out.count("c17/final-idle-periods/judged");
             if fi.stopped {
                 out.count("c17/final-idle-periods/runtime-stopped-within");
             } else {
+                // One way to get here has a signature of its own: a consumer that asked for SYNC was
+                // told `linked`, never `synced` (the answer to its request was consumed before the read
+                // task had registered it, C07 `synced-missing/.../answer-consumed-before-registration`),
+                // and left. The read task keeps it on its list of consumers awaiting `synced`; on a value
+                // lane nothing is ever written to that list before the next `synced`, and flushing an
+                // empty buffer into a channel whose reader is gone succeeds, so the departure is never
+                // seen, the list never empties and the read task never votes.
+                // Observable part of that: the lane completely answered a sync request that arrived after
+                // the consumer attached, a quiet point followed, and only then did the consumer leave,
+                // having been told `linked` and nothing else since. (Value lanes only: on a map lane
+                // events are forwarded to the consumers awaiting `synced`, so the departure is seen.)
+                let never_synced: Vec<usize> = (0..obs.cons.len())
+                    .filter(|c| {
+                        let co = &obs.cons[*c];
+                        let (Some(t_att), Some(ReaderEnd::Dropped(t_left))) = (co.t_att, &co.end) else { return false };
+                        cfg.kind == LaneKind::Value
+                            && cfg.consumers[*c].sync
+                            && co.attach_accepted
+                            && co.frames.iter().any(|f| f.1 == Note::Linked)
+                            && !co.frames.iter().any(|f| matches!(f.1, Note::Synced | Note::Unlinked))
+                            && obs.lane.syncs.iter().any(|(a, b)| *a > t_att && b.map_or(false, |b| obs.quiet.iter().any(|x| x.0 > b && x.0 < *t_left)))
+                    })
+                    .collect();
+                let class = if never_synced.is_empty() { "" } else { "/departed-consumer-never-synced" };
                 cx.violate_as(
                     P17,
                     out,
-                    format!("downlink/idle-runtime-never-stopped/{lane}"),
+                    format!("downlink/idle-runtime-never-stopped/{lane}{class}"),
                     format!(
                         "every consumer has left (both halves), the lane sent {} more events with a quiet point after each, nothing is stalled, and nothing happened for {} ms = five times `empty_timeout` and more: the runtime task is still running",
                         fi.events_after_departure,
                         fi.until_ms - fi.from_ms
                     ),
-                    json!({"idle_from_ms": fi.from_ms, "idle_until_ms": fi.until_ms, "timeout_ms": t}),
+                    json!({"idle_from_ms": fi.from_ms, "idle_until_ms": fi.until_ms, "timeout_ms": t, "consumers_linked_but_never_synced": never_synced}),
                 );
             }
         }
